@@ -27,8 +27,8 @@ if out.returncode != 0:
     sys.stderr.write(out.stdout + out.stderr)
     sys.exit(2)
 for dst, srcf in json.loads(out.stdout).items():
-    if os.path.exists(dst):
+    if os.path.exists(dst) and not os.path.basename(srcf).startswith("gen_"):
         sys.stderr.write("generated file would replace repository file: %s\n" % dst)
         sys.exit(2)
-    replace[dst] = srcf
+    replace[dst] = srcf   # gen_* = mechanical selector rewrite of the CURRENT repository file
 json.dump({"Replace": replace}, sys.stdout, indent=1)
